@@ -406,7 +406,7 @@ package server
 // The follower's sync routine: an acknowledgement is sent only for an offset the WAL
 // reports as synced.
 //
-//@ func followerController.handleReplicateSync(fc, stream)
+//@ func followerController.handleReplicateSync(fc, stream, oldHeadOffset)
 //@ property C03
 //@ requires fc.wal != nil && fc.syncCond != nil && fc.applyEntriesCond != nil && stream != nil
 //@ loop 0 invariant fc.wal == old(fc.wal) && fc.syncCond != nil && fc.applyEntriesCond != nil
